@@ -40,6 +40,8 @@ fn main() {
         // C12 at the connection: the session service is asked about exactly the claimed user
         "C12" => c01::run_filtered(&cli, Some("service-asked-about-other-user")),
         "C10" => c10::run_prop(&cli),
+        // C14 at the connection: the configured maximum frame length is enforced in every protocol state
+        "C14" => c04::run_filtered(&cli, Some(&["malformed-input-accepted/", "body-consumed-after-refused-length/", "reply-after-refused-length/"])),
         // C18 at the connection: the allow/block lists and strategies are given the authenticated player
         "C18" => c01::run_filtered(&cli, Some("routing-identity")),
         other => {
